@@ -4,7 +4,9 @@ proof : Properties/C18.v  calls_gated (every Call node, wherever nested and in e
         position, compiles to environment.call; gates in bijection with Call nodes),
         call_gate_sound / rejected_never_runs / unsafe_never_runs / refused_is_last (event-log
         semantics of the generated code, for every safety predicate and every world behaviour)
-tie   : T1     pinned shape of SandboxedEnvironment.call / is_safe_callable and of compiler.visit_Call
+tie   : T5     gen/sbx_translate.py: current source of is_safe_callable / call as terms of Lib/PySbx.v;
+               build/C18/Gen_sbx_src.v proves  source term = is_safe_callable_default / sandbox_call
+        T1     pinned shape of compiler.visit_Call
         K-gen  Model/SbxGen.show (gen m e) == routing skeleton of the real generated Python; scan of
                the real generated code of generated templates for context.call( / direct calls of
                template values; environment.call sites counted against the parser's Call nodes
@@ -17,6 +19,7 @@ import itertools
 
 from . import lib
 from . import c17 as shared
+from . import sbx_src_tie
 
 RULE = ("K-rt: callable kinds {function, lambda, bound method, callable instance, class, functools.partial} x marker "
         "subsets of {unsafe_callable, alters_data, forbidden} x predicate {default, overridden}. Render: 42 template "
@@ -110,7 +113,7 @@ def k_rt_gate(ctx, envs):
         cases.append((kind, bool(unsafe), bool(alters), bool(forbidden), pol))
     lines = []
     for kind, u, a, f, pol in cases:
-        lines.append(f"gate {int(u)} {int(a)} " + ("default" if pol == "default" else ("0" if f else "1")))
+        lines.append(f"gate {int(u)} {int(a)} 0 " + ("default" if pol == "default" else ("0" if f else "1")))
     out = ctx.driver("sbx", lines)
     for (kind, u, a, f, pol), model in zip(cases, out):
         env = envs[(pol, "sync")][0]
@@ -138,6 +141,44 @@ def k_rt_gate(ctx, envs):
             ctx.model_mismatch("K-rt SandboxedEnvironment.call", case, model, real, None)
         else:
             ctx.validated()
+
+
+def k_rt_gate_format(ctx, envs):
+    """a bound str.format / format_map / Markup.format handed to call() is run by the sandboxed
+    formatter (model: check, then EvFormat), never natively"""
+    from markupsafe import Markup
+
+    class Secret:
+        pub = "PUB"
+
+        def __init__(self):
+            self._secret = "S3CR3T"
+    bound = {"str.format": ("{0._secret}|{0.pub}".format, (Secret(),)),
+             "str.format_map": ("{x._secret}|{x.pub}".format_map, ({"x": Secret()},)),
+             "Markup.format": (Markup("{0._secret}|{0.pub}").format, (Secret(),))}
+    pols = ("default", "overridden")
+    out = ctx.driver("sbx", ["gate 0 0 1 " + ("default" if pol == "default" else "1") for _ in bound for pol in pols])
+    i = 0
+    for name, (fn, args) in bound.items():
+        for pol in pols:
+            model = out[i]
+            i += 1
+            env = envs[(pol, "sync")][0]
+            try:
+                r = env.call(env.from_string("").new_context({}), fn, *args)
+                real = ("check:1 invoke" if "S3CR3T" in str(r) else "check:1 format") + " | value"
+            except Exception as e:  # noqa: BLE001
+                r, real = None, "error:" + type(e).__name__
+            case = {"kind": "gate-format", "callable": name, "policy": pol}
+            ctx.case(sample=case, key=("gate-format", name, pol))
+            ctx.count("k_rt_gate_format")
+            if r is not None and "S3CR3T" in str(r):
+                shared.reject_once(ctx, case, f"SandboxedEnvironment.call ran a bound {name} natively (private attribute read)",
+                                   f"C18:gate-format:{name}")
+            elif real != model:
+                ctx.model_mismatch("K-rt SandboxedEnvironment.call on bound format methods", case, model, real, None)
+            else:
+                ctx.validated()
 
 
 # ------------------------------------------------------------------ render oracle
@@ -279,13 +320,15 @@ def run(ctx):
         "the safety predicate is a function of the callable object (default: its unsafe_callable / alters_data attributes)",
     ]
     ctx.proof("C18")
+    # T5: the current source of SandboxedEnvironment.is_safe_callable and .call, interpreted in Coq,
+    # equals is_safe_callable_default / sandbox_call (check event, then invocation) for every argument
+    sbx_src_tie.source_equations(ctx, ("call",))
     # T1: shapes
     ctx.obligations += 1
-    ctx.obligation_names.append("shape of SandboxedEnvironment.call / is_safe_callable / compiler.visit_Call")
+    ctx.obligation_names.append("shape of compiler.visit_Call")
     try:
         facts = sbx_tables.read_source(lib.SRC)
-        bad = [q for q in sbx_tables.shape_mismatches(facts) if q in ("SandboxedEnvironment.call", "SandboxedEnvironment.is_safe_callable")]
-        bad += sbx_tables.compiler_shape_mismatches(lib.SRC, ("CodeGenerator.visit_Call",))
+        bad = sbx_tables.compiler_shape_mismatches(lib.SRC, ("CodeGenerator.visit_Call",))
         if bad:
             ctx.broken.append("T1: source shape differs from the modelled one: " + ", ".join(bad))
         else:
@@ -295,6 +338,7 @@ def run(ctx):
 
     envs = make_envs()
     k_rt_gate(ctx, envs)
+    k_rt_gate_format(ctx, envs)
     shared.k_gen(ctx, jinja2, ctx.size(1500, 15000), ctx.size(250, 2500), "C18")
     for (c, _), shape, pol, mode in itertools.product(callables_under_test(), SHAPES, ("default", "overridden"), ("sync", "async")):
         case = {"kind": "render", "callable": c, "shape": shape, "policy": pol, "mode": mode}
